@@ -296,6 +296,40 @@ def extraction_crosscheck(samples):
             bad.append("source %r: vm_compute gives %r..., the extracted driver %r..." % (s0[:80], c[:60], want[:60]))
     return len(coq), bad
 
+def io_crosscheck(cases):
+    """the same for Model/Io.v: cases are (wrapper D|H|B, pieces: list of bytes, schedule tokens: list of str)"""
+    work = os.path.join(BUILD, "xcheck"); os.makedirs(work, exist_ok=True)
+    def resp(t):
+        return "Accept %d" % int(t[1:]) if t[0] == "a" else "Interrupted" if t[0] == "i" else "Fail %d%%N" % int(t[1:])
+    v = ["From Ructe Require Import Io.", "Local Open Scope list_scope.",
+         "Definition showr (r : outcome) : list N := match r with Done => [0%N] | Failed WriteZero => [1%N] | Failed (Io e) => [2%N; e] | OutOfFuel => [3%N] end.",
+         "Definition run (v : hval) (sc : list resp) : list N := let '(s, r) := to_html v {| sched := sc; log := [] |} in log s ++ [256%N] ++ showr r.",
+         "Definition bufof (v : hval) : hval := match to_buffer v with Some b => VBuffer b | None => VBuffer [] end."]
+    for w, ps, sc in cases:
+        val = "VDisplay [%s]" % "; ".join(coq_bytes(p) for p in ps)
+        if w == "H": val = "VRaw [%s]" % "; ".join(coq_bytes(p) for p in ps)
+        if w == "B": val = "bufof (%s)" % val
+        v.append("Eval vm_compute in run (%s) [%s]." % (val, "; ".join(resp(t) for t in sc)))
+    open(os.path.join(work, "xio.v"), "w").write("\n".join(v) + "\n")
+    with Lock():
+        r = subprocess.run(["coqc", "-noglob", "-Q", os.path.join(COQ, "theories"), "Ructe", "xio.v"], cwd=work, capture_output=True, text=True, timeout=1800)
+    if r.returncode != 0:
+        return 0, ["coqc failed on the io cross-check file: " + r.stderr[-400:]]
+    outs = re.findall(r"=\s*(\[[^\]]*\])\s*:\s*list N", r.stdout, re.S)
+    coq = [[int(x) for x in re.findall(r"(\d+)%N", o)] for o in outs]
+    lines = ["%s %s %s" % (w, ",".join(hexs(p) for p in ps) if ps else "-", ",".join(sc) if sc else "-") for w, ps, sc in cases]
+    drv = run_model("io", lines)
+    bad = []
+    if len(coq) != len(cases): bad.append("%d results from Coq for %d inputs" % (len(coq), len(cases)))
+    for line, c, d in zip(lines, coq, drv):
+        f = d.split(" ")
+        k = c.index(256) if 256 in c else len(c)
+        res = c[k + 1:]
+        rs = "ok" if res == [0] else "wz" if res == [1] else ("io%d" % res[1]) if res[:1] == [2] else "FUEL"
+        if bytes(c[:k]) != unhexs(f[0]) or rs != (f[1] if len(f) > 1 else "?"):
+            bad.append("case %s: vm_compute gives %s %s, the extracted driver %s" % (line, bytes(c[:k]).hex(), rs, d[:80]))
+    return len(coq), bad
+
 # ------------------------------------------------------------------ known findings
 
 def known_findings():
@@ -378,7 +412,8 @@ TRUSTED_BASE = [
     "Coq 8.16.1 kernel (vm_compute used for finite table checks and witnesses; native_compute not used)",
     "no axioms declared; every property theorem must print 'Closed under the global context'",
     "hand-written Gallina model of the code, tied to /repo by the correspondence check (extracted OCaml vs implementation, byte for byte) and by translator-generated tables",
-    "extraction: ExtrOcamlBasic only (Extract Inductive bool option unit list prod sumbool sumor; Extract Inlined Constant andb orb); OCaml 4.13.1; hex line driver",
+    "extraction: ExtrOcamlBasic only (Extract Inductive bool option unit list prod sumbool sumor; Extract Inlined Constant andb orb); OCaml 4.13.1; hex line driver; on every run of C02, C06 and C11 a sample of the cases is also evaluated by vm_compute inside Coq and compared with what the extracted driver prints",
+    "translator/skeleton.py: the parsers' literals (tags, messages, delimiter sets) are read from the Rust source with regular expressions and compared with the model's, in order",
     "Rust harness (catch_unwind), Python generators/oracles, rustc 1.95.0 and installed core for compile-and-run batches",
 ]
 
